@@ -251,16 +251,21 @@ pub fn worker(case: &Value) -> Value {
                 }
             }
         }
-        "R" => {
-            for (prog, label) in vcore::gen01::rich_operand_programs() {
-                let (class, nt, bad) = differential(&prog, b"", "R");
+        "R" | "S" | "E" => {
+            let progs = match axis {
+                "R" => vcore::gen01::rich_operand_programs(),
+                "S" => vcore::gen01::case_expression_programs(),
+                _ => vcore::gen01::failing_condition_programs(),
+            };
+            for (prog, label) in progs {
+                let (class, nt, bad) = differential(&prog, b"", axis);
                 n += 1;
                 *hist.entry(class).or_insert(0) += 1;
                 if nt {
                     nontrivial += 1;
                 }
                 if sample.is_null() {
-                    sample = json!({"axis": "R", "text": print_default(&prog).text});
+                    sample = json!({"axis": axis, "text": print_default(&prog).text});
                 }
                 if let Some((sig, msg, text)) = bad
                     && bads.len() < 25
@@ -430,6 +435,10 @@ pub fn drive(tier: &str) -> i32 {
     plan.push(json!({"axis": "T", "programs": 2 * vcore::gen01::TRUTH_KINDS.len() * vcore::gen01::TRUTH_VALUES.len()}));
     cases.push(json!({"axis": "R"}));
     plan.push(json!({"axis": "R", "programs": vcore::gen01::rich_operand_programs().len()}));
+    cases.push(json!({"axis": "S"}));
+    plan.push(json!({"axis": "S", "programs": vcore::gen01::case_expression_programs().len()}));
+    cases.push(json!({"axis": "E"}));
+    plan.push(json!({"axis": "E", "programs": vcore::gen01::failing_condition_programs().len()}));
     cases.push(json!({"axis": "P"}));
     plan.push(json!({"axis": "P", "programs": vcore::gen01::print_continuation_programs().len() + 24}));
     cases.push(json!({"axis": "C2"}));
